@@ -446,6 +446,39 @@ def settings_truthiness(ix, rep, classes):
     return n
 
 
+def check_timestamp_forwarding(ix, rep):
+    """the time-stamp the user hands to spec.update() is the number the gap is computed from: between `args[0]` and the first argument of the
+    interpreter's update() there is no conversion.  `float(t)` is exact for small numbers and silently rounds integer time-stamps above
+    2**53 (epoch-based nanoseconds are ~1.7e18: 256 ns steps), so a regular 1 us grid shows gaps of 768 and 1280 ns."""
+    cls = ix.find_class('rtamt.spec.abstract_specification', 'AbstractOnlineSpecification')
+    f = cls.methods.get('update') if cls is not None else None
+    if f is None:
+        raise AnalysisError('AbstractOnlineSpecification.update vanished')
+    rep.analysed(f)
+    n = 0
+    for c in ast.walk(f.node):
+        if isinstance(c, ast.Call) and isinstance(c.func, ast.Attribute) and c.func.attr == 'update' and ast.unparse(c.func.value) == 'self.online_interpreter' and len(c.args) == 2:
+            n += 1
+            e = c.args[0]
+            chain = [ast.unparse(e)]
+            for _ in range(5):
+                if isinstance(e, ast.Name):
+                    ds = [st for st in ast.walk(f.node) if isinstance(st, ast.Assign) and len(st.targets) == 1 and isinstance(st.targets[0], ast.Name) and st.targets[0].id == e.id]
+                    if len(ds) != 1:
+                        break
+                    e = ds[0].value
+                    chain.append(ast.unparse(e))
+                else:
+                    break
+            verbatim = isinstance(e, ast.Subscript) and ast.unparse(e.value) == 'args' and isinstance(e.slice, ast.Constant) and e.slice.value == 0
+            if verbatim:
+                rep.ok('R-JITTER', f.module.rel, f.qual, 'timestamp:verbatim', 'update(args[0], ...) reaches the interpreter unconverted', c.lineno)
+            else:
+                rep.fail('R-JITTER', f.module.rel, f.qual, 'timestamp:verbatim', 'the time-stamp handed to the interpreter is `%s`, not the caller\'s args[0]: a conversion on entry (float() '
+                         'rounds integers above 2**53, int() truncates) changes the gaps the counter sees for large or fractional time-stamps' % ' <- '.join(chain), c.lineno)
+    return n
+
+
 def _aff(p):
     return ('n' if p[0] == 1 else '%d*n' % p[0] if p[0] else '') + ('%+d' % p[1] if p[1] or not p[0] else '')
 
@@ -466,6 +499,8 @@ def check(ix, rep):
     rep.floor('methods on the sampling path checked for truthiness of settings', nt, 8)
     nr = units.check_forwarding_reach(ix, rep)
     rep.floor('interpreters a setting has to reach', nr, 2)
+    nts = check_timestamp_forwarding(ix, rep)
+    rep.floor('hand-overs of the time-stamp from the specification to the interpreter', nts, 1)
     ng = units.check_counted_getters(ix, rep)
     rep.floor('interpreters a counted quantity is read from', ng, 2)
     # reset restarts the counter (shared with C10)
